@@ -177,7 +177,7 @@ def setup(ctx):
     install(ctx)
     names = ["sym", "insub", "insub_cbc", "insup", "outsub", "outsub_prim", "outsub_qtot", "outsub_nrcbc", "outsub_rh", "outsup",
              "2d-sym", "2d-insub", "2d-insup", "2d-outsub", "2d-outsup", "sw-sym", "sw-inf",
-             "dirichlet:euler", "dirichlet:shallowwater", "dirichlet:convection", "dirichlet:burgers", "inverse:1d", "inverse:2d", "history"]
+             "dirichlet:euler", "dirichlet:shallowwater", "dirichlet:convection", "dirichlet:burgers", "inverse:1d", "inverse:2d", "history", "integer-inputs"]
     ctx.require(*names)
 
 
@@ -426,3 +426,67 @@ def history(ctx, rng, idx):
                 pp["angle"] = ang
             model.namedBC(name, nrm, [rho, V, p], pp)
     ctx.nontrivial("history", name, two_d, gam, par)
+
+
+@group(quick=200, thorough=6000)
+def integer_inputs(ctx, rng, idx):
+    """interior states given as INTEGER arrays / python ints and integer-valued parameters (a user typing 2 for 2.): every
+    condition must still meet its definition (judged by the always-on monitor), and give what the same call with floats gives"""
+    two_d = idx % 4 == 3
+    gam = float(rng.choice([1.4, 5 / 3, 1.2]))
+    names = ["insup", "insub", "insub_cbc", "outsub", "outsub_prim", "outsub_qtot", "outsub_nrcbc", "outsub_rh", "outsup", "sym", "dirichlet"] if not two_d else ["insup", "insub", "outsub", "outsup", "sym", "insup-angle", "dirichlet"]
+    name = names[(idx // 4) % len(names)]
+    n = 12
+    it = np.int64 if rng.random() < 0.7 else np.int32
+    ri = rng.integers(1, 6, n).astype(it); pi = rng.integers(1, 7, n).astype(it)
+    par = {"type": name.split("-")[0], "ptot": int(rng.integers(8, 30)), "rttot": int(rng.integers(1, 6)), "p": int(rng.integers(1, 7))}
+    if name == "insup-angle":
+        par["angle"] = int(rng.choice([30, 45, -60, 120, 200, 10]))
+    ctx.ev("integer-inputs")
+    if not two_d:
+        model = euler.euler1d(gamma=gam)
+        d = int(rng.choice([-1, 1]))
+        ui = rng.integers(-2, 3, n).astype(it)
+        if name == "dirichlet":
+            par = {"type": "dirichlet", "prim": [int(rng.integers(1, 5)), int(rng.integers(-2, 3)), int(rng.integers(1, 5))]}
+        ctx.describe(bc=name, dir=d, gamma=gam, params=par, interior=[ri, ui, pi], integer_typed=True)
+        got = model.namedBC(par["type"], d, [ri.copy(), ui.copy(), pi.copy()], dict(par))
+        ref = model.namedBC(par["type"], d, [ri.astype(float), ui.astype(float), pi.astype(float)], {k: (float(v) if not isinstance(v, (str, list)) else ([float(x) for x in v] if isinstance(v, list) else v)) for k, v in par.items()})
+        sj = int(rng.integers(n))   # and one state as python ints
+        gs = model.namedBC(par["type"], d, [int(ri[sj]), int(ui[sj]), int(pi[sj])], dict(par))
+        for i in range(3):
+            a_, b_ = np.broadcast_to(_arr(got[i]), (n,)), np.broadcast_to(_arr(ref[i]), (n,))
+            ok = np.isfinite(b_)
+            sc = np.abs(b_) + (np.sqrt(gam * pi / ri) if i == 1 else 0) + 1e-300
+            if np.any(ok):
+                ctx.close("integer-inputs", np.max(np.abs(a_ - b_)[ok] / sc[ok]), 1e-12, "integer-inputs/%s/differs-from-the-same-call-with-floats" % name, {"component": i}, cls="integer-inputs")
+            if np.isfinite(b_[sj]):
+                ctx.close("integer-inputs", abs(float(np.asarray(gs[i]).ravel()[0]) - b_[sj]) / sc[sj], 1e-12, "integer-inputs/%s/python-int-call-differs-from-the-same-call-with-floats" % name, {"component": i}, cls="integer-inputs")
+    else:
+        model = euler.euler2d(gamma=gam)
+        nv = [(-1, 0), (1, 0), (0, -1), (0, 1)][int(rng.integers(4))]
+        ntype = str(rng.choice(["float", "mesh"]))      # (integer normal arrays are not an input of the property: the solver's are floats)
+        if ntype == "mesh":      # the normals the 2D solver itself would pass
+            import flowdyn.mesh2d as fm2
+            tag = {(-1, 0): "left", (1, 0): "right", (0, -1): "bottom", (0, 1): "top"}[nv]
+            m2 = fm2.mesh2d(n if nv[0] == 0 else 3, 3 if nv[0] == 0 else n, 1.0, 1.0)
+            nrm = m2.normal_of_bc(tag)
+            nrm = nrm if np.array_equal(np.asarray(nrm, float)[:, 0], nv) else -np.asarray(nrm)
+        else:
+            nrm = np.vstack([np.full(n, nv[0]), np.full(n, nv[1])]).astype(float)
+        Vi = rng.integers(-2, 3, (2, n)).astype(it)
+        if name == "dirichlet":
+            par = {"type": "dirichlet", "prim": [np.full(n, int(rng.integers(1, 5))), rng.integers(-2, 3, (2, n)), np.full(n, int(rng.integers(1, 5)))]}
+        ctx.describe(bc=name, normal=nv, normal_type=ntype, gamma=gam, params=par, interior=[ri, Vi, pi], integer_typed=True)
+        got = model.namedBC(par["type"], nrm, [ri.copy(), Vi.copy(), pi.copy()], dict(par))
+        fpar = {k: (float(v) if isinstance(v, (int, np.integer)) else ([np.asarray(x, float) for x in v] if isinstance(v, list) else v)) for k, v in par.items()}
+        ref = model.namedBC(par["type"], np.asarray(nrm, float), [ri.astype(float), Vi.astype(float), pi.astype(float)], fpar)
+        c = np.sqrt(gam * pi / ri)
+        for i in range(3):
+            a_, b_ = np.asarray(got[i], float), np.asarray(ref[i], float)
+            a_, b_ = np.broadcast_arrays(a_, b_)
+            ok = np.isfinite(b_)
+            sc = np.abs(b_) + (c if i == 1 else 0) + 1e-300
+            if np.any(ok):
+                ctx.close("integer-inputs", np.max((np.abs(a_ - b_) / sc)[ok]), 1e-12, "integer-inputs/2d-%s/differs-from-the-same-call-with-floats" % name, {"component": i, "normal type": ntype}, cls="integer-inputs")
+    ctx.nontrivial("int", name, two_d, gam, ri[:3], pi[:3])
